@@ -267,6 +267,14 @@ def ffo(op, a, p, Rm):
         return 'true' if un(a[0]) > (p - 1) // 2 else 'false'
     if op == 'iszero':
         return 'true' if a[0] == 0 else 'false'
+    if op == 'bit':      # the stored (Montgomery) limbs, as documented
+        return str((a[0] >> a[1]) & 1)
+    if op == 'bitlen':
+        return str(a[0].bit_length())
+    if op == 'modulus':
+        return str(p)
+    if op == 'one':
+        return str(mo(1))
     if op == 'legendre':
         xv = un(a[0])
         return '0' if xv == 0 else ('1' if pow(xv, (p - 1) // 2, p) == 1 else '-1')
@@ -283,6 +291,22 @@ def oracle(line):
             if not (on_curve(P1) and on_curve(P2)):
                 return None
             return '%d %d' % ed_add((P1[0] % Q, P1[1] % Q), (P2[0] % Q, P2[1] % Q))
+        if op == 'paffine':
+            X, Y, Zc = a[0], a[1], a[2]
+            if not all(0 <= v < Q for v in (X, Y, Zc)):
+                return None
+            if Zc == 0:
+                return '0 0'       # documented: the degenerate triple maps to (0,0)
+            zi = inv(Zc)
+            return '%d %d' % (X * zi % Q, Y * zi % Q)
+        if op == 'paddproj':
+            if not all(0 <= v < Q for v in a[:6]) or a[2] == 0 or a[5] == 0:
+                return None
+            P1 = (a[0] * inv(a[2]) % Q, a[1] * inv(a[2]) % Q)
+            P2 = (a[3] * inv(a[5]) % Q, a[4] * inv(a[5]) % Q)
+            if not (on_curve(P1) and on_curve(P2)):
+                return None
+            return '%d %d' % ed_add(P1, P2)
         if op == 'mul':
             P = (a[1], a[2])
             if a[0] < 0 or not on_curve(P):
@@ -367,7 +391,7 @@ def oracle(line):
                 return None
             return ffo(a[1], a[2:], Q, R256 % Q)
         if op == 'ffg':
-            if a[0] in ('setstring', 'string', 'sqrt'):
+            if a[0] in ('setstring', 'setinterface', 'string', 'sqrt'):
                 return None
             if a[0] == 'bytes':
                 return 'x' + (a[1] * inv(2**64 % PG, PG) % PG).to_bytes(8, 'big').hex()
